@@ -11,7 +11,7 @@ from pydcop.infrastructure.orchestratedagents import OrchestratedAgent, ORCHESTR
 
 
 class OrchWorld(AgentWorld):
-    def __init__(self, dcop, algo_def, cg, distribution, infinity=10000, replication=None, seed=0, agents=None):
+    def __init__(self, dcop, algo_def, cg, distribution, infinity=10000, replication=None, seed=0, agents=None, metrics_on="value_change"):
         super().__init__(seed)
         # the algorithms and the repair code draw from the global generators: seed them so that a run can be replayed
         random.seed(seed)
@@ -21,7 +21,8 @@ class OrchWorld(AgentWorld):
         except ImportError:
             pass
         self.dcop = dcop
-        self.orch = Orchestrator(algo_def, cg, distribution, InProcessCommunicationLayer(), dcop, infinity)
+        self.orch = Orchestrator(algo_def, cg, distribution, InProcessCommunicationLayer(), dcop, infinity,
+                                 collect_moment=metrics_on)
         oa = self.orch._own_agt
         self.agents["orchestrator"] = oa
         self.dir_agent, self.directory = oa, self.orch.directory
@@ -35,7 +36,7 @@ class OrchWorld(AgentWorld):
         self.booted.add("orchestrator")
         for name in (agents or dcop.agents):
             a = OrchestratedAgent(dcop.agents[name], InProcessCommunicationLayer(), self.orch.address,
-                                  metrics_on="value_change", replication=replication)
+                                  metrics_on=metrics_on, replication=replication)
             self.agents[name] = a
         self.phase_steps = {}
 
